@@ -256,6 +256,12 @@ def seq_cases(n):
             for seq in itertools.product(range(len(items)), repeat=k):
                 if len(set(seq)) == len(seq):
                     yield {'k': 'seq', 'fam': 'struct', 'cpu': cpu, 'seq': list(seq)}
+    # relocatable segments: expressions over external symbols and relocatable labels, every sum/difference of up to four terms
+    terms = ['ext1', 'ext2', 'lab1', 'lab2', '5']
+    for n in range(1, 5):
+        for combo in itertools.product(terms, repeat=n):
+            for sign in ('+', '-') if n > 1 else ('+',):
+                yield {'k': 'seq', 'fam': 'rseg', 'seq': [sign.join(combo)]}
     # lines that grow while they are processed: #define expansions (length of the definition x number of uses, definitions
     # that use definitions) and TABs in stored body lines, which are expanded to blanks
     for dl in (1, 10, 100, 250):
@@ -459,6 +465,9 @@ def evaluate(case):
             src = '\tcpu 8080\nx\tset 1\n' + '\n'.join(PV[i] for i in case['seq']) + '\n\tnop\n'
         elif case['fam'] == 'binclude':
             src = '\tcpu 8080\n' + '\n'.join(BINC[i] for i in case['seq']) + '\n\tnop\n'
+        elif case['fam'] == 'rseg':
+            e = case['seq'][0]
+            src = '\tcpu 8051\n\textern_sym ext1,ext2\n\trseg\nlab1:\tnop\nlab2:\tmov dptr,#(%s)\n\tljmp %s\n\tdw %s\n' % (e, e, e)
         elif case['fam'] == 'grow':
             q = case['seq']
             if q[0] == 'def':
